@@ -78,12 +78,12 @@ theorem ofVal_slice_cases (u : Val) :
 
 /-- What one step of the model and one step of the Spec have in common. -/
 def Sim (cfg : Cfg) (ar : Arith) (now : Int) (s : State) (req : Req) : Prop :=
-  (Model.stepCore cfg ar now s req).r = (Spec.step ar now (Model.abs s) req).2 ∧
-  Model.abs (Model.stepCore cfg ar now s req).s = (Spec.step ar now (Model.abs s) req).1 ∧
-  Inv cfg (Model.stepCore cfg ar now s req).s
+  (Model.stepCoreV cfg ar now s req).r = (Spec.stepV ar now (Model.abs s) req).2 ∧
+  Model.abs (Model.stepCoreV cfg ar now s req).s = (Spec.stepV ar now (Model.abs s) req).1 ∧
+  Inv cfg (Model.stepCoreV cfg ar now s req).s
 
 theorem sim_set (cfg : Cfg) (ar : Arith) (now : Int) (s : State) (create over : Bool) (items : List Item)
-    (hinv : Inv cfg s) (hq : Q cfg (Model.stepCore cfg ar now s (.set create over items)).tags) :
+    (hinv : Inv cfg s) (hq : Q cfg (Model.stepCoreV cfg ar now s (.set create over items)).tags) :
     Sim cfg ar now s (.set create over items) := by
   obtain ⟨hi, habs, hex⟩ := touch cfg s hinv
   have hsingle : ∀ {P : Prop}, Q cfg (if cfg.setErrSingle then [] else [Tag.setErrDup]) →
@@ -95,7 +95,7 @@ theorem sim_set (cfg : Cfg) (ar : Arith) (now : Int) (s : State) (create over : 
       rw [hs] at hq'
       exact Q.absurd_tag hq' (fun hg => by have := Cfg.good_setErr hg; rw [this] at hs; cases hs)
   unfold Sim
-  simp only [Model.stepCore, Spec.step] at hq ⊢
+  simp only [Model.stepCoreV, Spec.stepV] at hq ⊢
   by_cases h0 : items.isEmpty = true
   · simp only [h0, if_true] at hq ⊢
     triv3 hinv
@@ -129,33 +129,33 @@ theorem sim_reads (cfg : Cfg) (ar : Arith) (now : Int) (s : State) (hinv : Inv c
   | false =>
     have he := exists_false_abs cfg s hinv hx
     refine ⟨fun keys => ?_, ?_, fun keys => ?_, fun k => ?_, ?_⟩ <;>
-      simp only [Model.stepCore, Spec.step, hx, he, Bool.not_false, Bool.not_true, if_true] <;>
+      simp only [Model.stepCoreV, Spec.stepV, hx, he, Bool.not_false, Bool.not_true, if_true] <;>
       triv3 hinv
   | true =>
     have he := exists_true_abs cfg s hinv hx
     obtain ⟨k1, k2⟩ := keep_live cfg s hinv hx
     refine ⟨fun keys => ?_, ?_, fun keys => ?_, fun k => ?_, ?_⟩
-    · simp only [Model.stepCore, Spec.step, hx, he, Bool.not_true, Bool.false_eq_true, if_false]
+    · simp only [Model.stepCoreV, Spec.stepV, hx, he, Bool.not_true, Bool.false_eq_true, if_false]
       refine ⟨?_, k2, k1⟩
       rw [← habs]
       congr 1
       apply List.map_congr_left
       intro k _
       rw [find_absI]; cases AL.find k (Model.summon s).recs <;> rfl
-    · simp only [Model.stepCore, Spec.step, hx, he, Bool.not_true, Bool.false_eq_true, if_false]
+    · simp only [Model.stepCoreV, Spec.stepV, hx, he, Bool.not_true, Bool.false_eq_true, if_false]
       refine ⟨?_, k2, k1⟩
       rw [← habs, absI, AL.mapV_mapV]
-    · simp only [Model.stepCore, Spec.step, hx, he, Bool.not_true, Bool.false_eq_true, if_false]
+    · simp only [Model.stepCoreV, Spec.stepV, hx, he, Bool.not_true, Bool.false_eq_true, if_false]
       refine ⟨?_, k2, k1⟩
       rw [← habs]
       congr 1
       apply filterMap_congr'
       intro k _
       rw [find_absI]; cases AL.find k (Model.summon s).recs <;> rfl
-    · simp only [Model.stepCore, Spec.step, hx, he, Bool.not_true, Bool.false_eq_true, if_false]
+    · simp only [Model.stepCoreV, Spec.stepV, hx, he, Bool.not_true, Bool.false_eq_true, if_false]
       refine ⟨?_, k2, k1⟩
       rw [← habs, has_absI]
-    · simp only [Model.stepCore, Spec.step, hx, he, Bool.not_false]
+    · simp only [Model.stepCoreV, Spec.stepV, hx, he, Bool.not_false]
       triv3 hinv
 
 theorem sim_shift (cfg : Cfg) (ar : Arith) (now : Int) (s : State) (keys : List Key) (hinv : Inv cfg s) :
@@ -165,11 +165,11 @@ theorem sim_shift (cfg : Cfg) (ar : Arith) (now : Int) (s : State) (keys : List 
   cases hx : Model.exists_ s with
   | false =>
     have he := exists_false_abs cfg s hinv hx
-    simp only [Model.stepCore, Spec.step, hx, he, Bool.not_false, if_true]
+    simp only [Model.stepCoreV, Spec.stepV, hx, he, Bool.not_false, if_true]
     triv3 hinv
   | true =>
     have he := exists_true_abs cfg s hinv hx
-    simp only [Model.stepCore, Spec.step, hx, he, Bool.not_true, Bool.false_eq_true, if_false]
+    simp only [Model.stepCoreV, Spec.stepV, hx, he, Bool.not_true, Bool.false_eq_true, if_false]
     obtain ⟨a1, a2⟩ := shiftLoop_sim cfg ar keys (Model.summon s) hi
     obtain ⟨b1, b2⟩ := settleAfterDelete_sim cfg s _ hinv a1
     rw [habs] at a2
@@ -184,7 +184,7 @@ theorem sim_del (cfg : Cfg) (ar : Arith) (now : Int) (s : State) (keys : List Ke
   cases hx : Model.exists_ s with
   | false =>
     have he := exists_false_abs cfg s hinv hx
-    simp only [Model.stepCore, Spec.step, hx, he, Bool.not_false, if_true]
+    simp only [Model.stepCoreV, Spec.stepV, hx, he, Bool.not_false, if_true]
     triv3 hinv
   | true =>
     have he := exists_true_abs cfg s hinv hx
@@ -193,7 +193,7 @@ theorem sim_del (cfg : Cfg) (ar : Arith) (now : Int) (s : State) (keys : List Ke
       cases hr : (Model.summon s).recs with
       | nil => exact absurd hr hne
       | cons _ _ => rfl
-    simp only [Model.stepCore, Spec.step, hx, he, Bool.not_true, Bool.false_eq_true, if_false, hne',
+    simp only [Model.stepCoreV, Spec.stepV, hx, he, Bool.not_true, Bool.false_eq_true, if_false, hne',
       Bool.not_false, Bool.and_true]
     obtain ⟨a1, a2⟩ := delLoop_sim cfg keys (Model.summon s) hi
     rw [habs] at a2
@@ -213,13 +213,13 @@ theorem sim_del (cfg : Cfg) (ar : Arith) (now : Int) (s : State) (keys : List Ke
       · rw [b2, ← a2]
 
 theorem sim_count (cfg : Cfg) (ar : Arith) (now : Int) (s : State) (hinv : Inv cfg s)
-    (hq : Q cfg (Model.stepCore cfg ar now s .count).tags) : Sim cfg ar now s .count := by
+    (hq : Q cfg (Model.stepCoreV cfg ar now s .count).tags) : Sim cfg ar now s .count := by
   obtain ⟨hi, habs, hex⟩ := touch cfg s hinv
   unfold Sim
   cases hx : Model.exists_ s with
   | false =>
     have he := exists_false_abs cfg s hinv hx
-    simp only [Model.stepCore, Spec.step, hx, he, Bool.not_false, if_true] at hq ⊢
+    simp only [Model.stepCoreV, Spec.stepV, hx, he, Bool.not_false, if_true] at hq ⊢
     cases hc : cfg.countMissingOk with
     | true => simp only [if_true]; triv3 hinv
     | false =>
@@ -228,12 +228,12 @@ theorem sim_count (cfg : Cfg) (ar : Arith) (now : Int) (s : State) (hinv : Inv c
   | true =>
     have he := exists_true_abs cfg s hinv hx
     obtain ⟨k1, k2⟩ := keep_live cfg s hinv hx
-    simp only [Model.stepCore, Spec.step, hx, he, Bool.not_true, Bool.false_eq_true, if_false]
+    simp only [Model.stepCoreV, Spec.stepV, hx, he, Bool.not_true, Bool.false_eq_true, if_false]
     refine ⟨?_, k2, k1⟩
     rw [← habs, absI, AL.length_mapV]
 
 theorem sim_areKeys (cfg : Cfg) (ar : Arith) (now : Int) (s : State) (keys : List Key) (hinv : Inv cfg s)
-    (hq : Q cfg (Model.stepCore cfg ar now s (.areKeys keys)).tags) : Sim cfg ar now s (.areKeys keys) := by
+    (hq : Q cfg (Model.stepCoreV cfg ar now s (.areKeys keys)).tags) : Sim cfg ar now s (.areKeys keys) := by
   obtain ⟨hi, habs, hex⟩ := touch cfg s hinv
   unfold Sim
   cases hx : Model.exists_ s with
@@ -243,7 +243,7 @@ theorem sim_areKeys (cfg : Cfg) (ar : Arith) (now : Int) (s : State) (keys : Lis
       cases h : Model.abs s with
       | nil => rfl
       | cons _ _ => rw [h] at he; simp at he
-    simp only [Model.stepCore, Spec.step, hx, Bool.not_false, if_true] at hq ⊢
+    simp only [Model.stepCoreV, Spec.stepV, hx, Bool.not_false, if_true] at hq ⊢
     cases hc : cfg.arekAllFalse with
     | true =>
       simp only [if_true]
@@ -255,7 +255,7 @@ theorem sim_areKeys (cfg : Cfg) (ar : Arith) (now : Int) (s : State) (keys : Lis
       exact Q.absurd_tag hq (fun hg => by have := Cfg.good_arek hg; rw [this] at hc; cases hc)
   | true =>
     obtain ⟨k1, k2⟩ := keep_live cfg s hinv hx
-    simp only [Model.stepCore, Spec.step, hx, Bool.not_true, Bool.false_eq_true, if_false]
+    simp only [Model.stepCoreV, Spec.stepV, hx, Bool.not_true, Bool.false_eq_true, if_false]
     refine ⟨?_, k2, k1⟩
     rw [← habs]
     congr 1
@@ -297,15 +297,15 @@ theorem incStep_cmpArith (cfg : Cfg) (ar : Arith) (now : Int) (s : State) (ty : 
 
 theorem sim_inc (cfg : Cfg) (ar : Arith) (now : Int) (s : State) (ty : NumTy) (k : Key) (by_ : Int)
     (cond : Option (RelOp × Int)) (ine ie : Option IncMeta) (hinv : Inv cfg s)
-    (hq : Q cfg (Model.stepCore cfg ar now s (.inc ty k by_ cond ine ie)).tags) :
+    (hq : Q cfg (Model.stepCoreV cfg ar now s (.inc ty k by_ cond ine ie)).tags) :
     Sim cfg ar now s (.inc ty k by_ cond ine ie) := by
   obtain ⟨hi, habs, hex⟩ := touch cfg s hinv
   unfold Sim
-  simp only [Model.stepCore] at hq ⊢
+  simp only [Model.stepCoreV] at hq ⊢
   have harith := incStep_cmpArith cfg ar now s ty k by_ cond ine ie hq.right
   rw [harith] at hq ⊢
   replace hq := hq.left
-  simp only [Spec.step, Model.incStep, Spec.incStep] at hq ⊢
+  simp only [Spec.stepV, Model.incStep, Spec.incStep] at hq ⊢
   cases hz : numIsZero ty by_ with
   | true => simp only [if_true]; triv3 hinv
   | false =>
@@ -318,10 +318,10 @@ theorem sim_inc (cfg : Cfg) (ar : Arith) (now : Int) (s : State) (ty : NumTy) (k
     · rw [b2, ← a2]
 
 theorem sim_push (cfg : Cfg) (ar : Arith) (now : Int) (s : State) (pairs : List (Key × List Nat)) (hinv : Inv cfg s)
-    (hq : Q cfg (Model.stepCore cfg ar now s (.push pairs)).tags) : Sim cfg ar now s (.push pairs) := by
+    (hq : Q cfg (Model.stepCoreV cfg ar now s (.push pairs)).tags) : Sim cfg ar now s (.push pairs) := by
   obtain ⟨hi, habs, hex⟩ := touch cfg s hinv
   unfold Sim
-  simp only [Model.stepCore, Spec.step] at hq ⊢
+  simp only [Model.stepCoreV, Spec.stepV] at hq ⊢
   obtain ⟨a1, a2⟩ := pushLoop_sim cfg pairs (Model.summon s) hi hq.left
   obtain ⟨b1, b2⟩ := settleAfterTouch_sim cfg s _ hinv a1 hq.right
   rw [habs] at a2
@@ -330,10 +330,10 @@ theorem sim_push (cfg : Cfg) (ar : Arith) (now : Int) (s : State) (pairs : List 
   · rw [b2, ← a2]
 
 theorem sim_u32del (cfg : Cfg) (ar : Arith) (now : Int) (s : State) (pairs : List (Key × List Nat)) (hinv : Inv cfg s)
-    (hq : Q cfg (Model.stepCore cfg ar now s (.u32del pairs)).tags) : Sim cfg ar now s (.u32del pairs) := by
+    (hq : Q cfg (Model.stepCoreV cfg ar now s (.u32del pairs)).tags) : Sim cfg ar now s (.u32del pairs) := by
   obtain ⟨hi, habs, hex⟩ := touch cfg s hinv
   unfold Sim
-  simp only [Model.stepCore, Spec.step] at hq ⊢
+  simp only [Model.stepCoreV, Spec.stepV] at hq ⊢
   have hl := u32delLoop_sim cfg s.kind pairs (Model.summon s) hi
   cases hh : (Model.u32delLoop cfg s.kind (Model.summon s) pairs).2.2.1 with
   | true =>
@@ -362,12 +362,12 @@ theorem sim_u32del (cfg : Cfg) (ar : Arith) (now : Int) (s : State) (pairs : Lis
       · rw [b2, ← a2]
 
 theorem sim_slice_reads (cfg : Cfg) (ar : Arith) (now : Int) (s : State) (hinv : Inv cfg s) :
-    (∀ k, Q cfg (Model.stepCore cfg ar now s (.size k)).tags → Sim cfg ar now s (.size k)) ∧
-    (∀ k v, Q cfg (Model.stepCore cfg ar now s (.hasVal k v)).tags → Sim cfg ar now s (.hasVal k v)) := by
+    (∀ k, Q cfg (Model.stepCoreV cfg ar now s (.size k)).tags → Sim cfg ar now s (.size k)) ∧
+    (∀ k v, Q cfg (Model.stepCoreV cfg ar now s (.hasVal k v)).tags → Sim cfg ar now s (.hasVal k v)) := by
   obtain ⟨hi, habs, hex⟩ := touch cfg s hinv
   refine ⟨fun k hq => ?_, fun k v hq => ?_⟩
   · unfold Sim
-    simp only [Model.stepCore, Spec.step] at hq ⊢
+    simp only [Model.stepCoreV, Spec.stepV] at hq ⊢
     rw [← habs, find_absI]
     cases hf : AL.find k (Model.summon s).recs with
     | none =>
@@ -389,7 +389,7 @@ theorem sim_slice_reads (cfg : Cfg) (ar : Arith) (now : Int) (s : State) (hinv :
         obtain ⟨b1, b2⟩ := settleAfterTouch_sim cfg s _ hinv hi hq
         exact ⟨by first | rfl | trivial, b2, b1⟩
   · unfold Sim
-    simp only [Model.stepCore, Spec.step] at hq ⊢
+    simp only [Model.stepCoreV, Spec.stepV] at hq ⊢
     rw [← habs, find_absI]
     cases hf : AL.find k (Model.summon s).recs with
     | none =>
@@ -421,23 +421,33 @@ theorem step_sim (cfg : Cfg) (ar : Arith) (now : Int) (s : State) (req : Req) (h
     Inv cfg (Model.step cfg ar now s req).s := by
   have hg := not_ghost cfg s hinv
   simp only [Model.step, hinv.alive, Bool.false_eq_true, if_false, hg, List.append_nil] at hq ⊢
-  have key : Sim cfg ar now s req := by
-    cases req with
-    | set create over items => exact sim_set cfg ar now s create over items hinv hq
-    | get keys => exact (sim_reads cfg ar now s hinv).1 keys
-    | getAll => exact (sim_reads cfg ar now s hinv).2.1
-    | getByKeys keys => exact (sim_reads cfg ar now s hinv).2.2.1 keys
-    | shift keys => exact sim_shift cfg ar now s keys hinv
-    | del keys => exact sim_del cfg ar now s keys hinv
-    | count => exact sim_count cfg ar now s hinv hq
-    | isKey k => exact (sim_reads cfg ar now s hinv).2.2.2.1 k
-    | areKeys keys => exact sim_areKeys cfg ar now s keys hinv hq
-    | isSwamp => exact (sim_reads cfg ar now s hinv).2.2.2.2
-    | inc ty k by_ cond ine ie => exact sim_inc cfg ar now s ty k by_ cond ine ie hinv hq
-    | push pairs => exact sim_push cfg ar now s pairs hinv hq
-    | u32del pairs => exact sim_u32del cfg ar now s pairs hinv hq
-    | size k => exact (sim_slice_reads cfg ar now s hinv).1 k hq
-    | hasVal k v => exact (sim_slice_reads cfg ar now s hinv).2 k v hq
-  exact key
+  simp only [Model.stepCore, Spec.step] at hq ⊢
+  cases hb : req.badKey with
+  | true =>
+    cases hk : cfg.keyChecked with
+    | true => simp only [Bool.and_self, if_true]; exact ⟨trivial, trivial, hinv⟩
+    | false =>
+      simp only [hk, hb, Bool.false_and, Bool.false_eq_true, if_false, if_true] at hq
+      exact Q.absurd_tag hq.right (fun hgood => by have := Cfg.good_keyChecked hgood; rw [this] at hk; cases hk)
+  | false =>
+    simp only [hb, Bool.and_false, Bool.false_eq_true, if_false, List.append_nil] at hq ⊢
+    have key : Sim cfg ar now s req := by
+      cases req with
+      | set create over items => exact sim_set cfg ar now s create over items hinv hq
+      | get keys => exact (sim_reads cfg ar now s hinv).1 keys
+      | getAll => exact (sim_reads cfg ar now s hinv).2.1
+      | getByKeys keys => exact (sim_reads cfg ar now s hinv).2.2.1 keys
+      | shift keys => exact sim_shift cfg ar now s keys hinv
+      | del keys => exact sim_del cfg ar now s keys hinv
+      | count => exact sim_count cfg ar now s hinv hq
+      | isKey k => exact (sim_reads cfg ar now s hinv).2.2.2.1 k
+      | areKeys keys => exact sim_areKeys cfg ar now s keys hinv hq
+      | isSwamp => exact (sim_reads cfg ar now s hinv).2.2.2.2
+      | inc ty k by_ cond ine ie => exact sim_inc cfg ar now s ty k by_ cond ine ie hinv hq
+      | push pairs => exact sim_push cfg ar now s pairs hinv hq
+      | u32del pairs => exact sim_u32del cfg ar now s pairs hinv hq
+      | size k => exact (sim_slice_reads cfg ar now s hinv).1 k hq
+      | hasVal k v => exact (sim_slice_reads cfg ar now s hinv).2 k v hq
+    exact key
 
 end Hv.Data
